@@ -151,7 +151,6 @@ func (s *State) ghostID(k string) string {
 func (x *Exec) intrinsic(st *State, fr *Frame, site ssa.Instruction, fn *ssa.Function, name string, args []Val, where string, k func(*State, Val)) bool {
 	switch name {
 	case "(*sync.Mutex).Lock", "(*sync.RWMutex).Lock", "(*sync.RWMutex).RLock":
-		x.atCallAsserts(st, fr, name, nil, args, where)
 		if a := args[0].A; a != nil && a.K == AHeap {
 			fname := fieldNameAt(x.tc, a.contT, a.Off)
 			if mi := x.monitorOf(a.contT, fname); mi != nil {
@@ -171,7 +170,6 @@ func (x *Exec) intrinsic(st *State, fr *Frame, site ssa.Instruction, fn *ssa.Fun
 		k(st, Val{})
 		return true
 	case "(*sync.Mutex).Unlock", "(*sync.RWMutex).Unlock", "(*sync.RWMutex).RUnlock":
-		x.atCallAsserts(st, fr, name, nil, args, where)
 		if a := args[0].A; a != nil && a.K == AHeap {
 			fname := fieldNameAt(x.tc, a.contT, a.Off)
 			if mi := x.monitorOf(a.contT, fname); mi != nil {
@@ -187,12 +185,10 @@ func (x *Exec) intrinsic(st *State, fr *Frame, site ssa.Instruction, fn *ssa.Fun
 		k(st, Val{})
 		return true
 	case "(*sync.Cond).Wait":
-		x.atCallAsserts(st, fr, name, nil, args, where)
 		x.condOp(st, fr, args[0], "wait", where)
 		k(st, Val{})
 		return true
 	case "(*sync.Cond).Signal", "(*sync.Cond).Broadcast":
-		x.atCallAsserts(st, fr, name, nil, args, where)
 		x.condOp(st, fr, args[0], "signal", where)
 		k(st, Val{})
 		return true
@@ -202,7 +198,6 @@ func (x *Exec) intrinsic(st *State, fr *Frame, site ssa.Instruction, fn *ssa.Fun
 		return true
 	case "(*sync.WaitGroup).Add", "(*sync.WaitGroup).Done", "(*sync.WaitGroup).Wait",
 		"(*sync.Once).Do", "runtime.Gosched":
-		x.atCallAsserts(st, fr, name, nil, args, where)
 		if name == "(*sync.Once).Do" {
 			return false
 		}
@@ -493,7 +488,7 @@ func (x *Exec) lookup(st *State, fr *Frame, v *ssa.Lookup) {
 			st.assume(f)
 		}
 		if isString(mt.Key()) {
-			if f := x.E.literalMapKeyFact(x, st, base.Src.Key, key, present); f != nil {
+			if f := x.E.literalMapKeyFact(x, st, base.Src.Key, key, val, present); f != nil {
 				st.assume(f)
 			}
 		}
